@@ -99,7 +99,7 @@ def c13(tier, seed):
         runs = [Run('e1_bfs', 'asan', ['api', '2']), Run('e1_bfs', 'plain', ['api', '3']), Run('e1_bfs', 'dbg', ['crypt']), Run('e1_bfs', 'dbg', ['api', '2'])]
         runs += [Run('e1_bfs', m, ['api', '2'], label='e1_bfs[%s] api 2 (compiler matrix)' % m) for m in ('gcc-O0', 'gcc-O3', 'gcc-Os', 'clang-O0', 'clang-O2', 'clang-O3')]
         runs += [Run('e2_pairs', 'plain', []), Run('e2_pairs', 'asan', ['--tier', 'quick'], label='e2_pairs[asan] en+es'), Run('e2_long', 'asan', []), Run('e2_long', 'plain', [])]
-    return check('C13', tier, seed, runs, keyfilter=pref('c13:', 'c10:', 'c12:', 'c14:', 'c18:', 'harness:'), extra_cov=e1_cov, assumptions=ASSUME_COMMON + [
+    return check('C13', tier, seed, runs, keyfilter=pref('c13:', 'c10:', 'c12:', 'c14:', 'c18:', 'harness:'), extra_cov=e1_cov, budget_s=(4200 if tier == 'thorough' else None), assumptions=ASSUME_COMMON + [
         'e2_pairs: every ordered pair (A, B) of words of a language (quick: English and Spanish; thorough: the 8 sorted languages, 33.5 M pairs): a phrase ending in A is decoded, then a phrase beginning with B, whose result must be the reference seed whatever A was',
         'alphabet (closed, so the search reaches a fixpoint): create with 3 feature arguments, free, free(NULL), crypt with 2 passwords, store/load into an empty slot, encode/decode into an empty slot (en auto, ko coin 2047 explicit, zh_s auto), enable_features {0,1,7}, re-injection of two dependency tables (B: different random source and clock, libc time/malloc/free), arming an allocation fault; 2 seed slots (thorough: 3)',
         'state key = library writable sections + raw bytes of every live seed block + environment; a change that introduces hidden state only grows the state space',
